@@ -8,9 +8,11 @@ import (
 	"errors"
 	"fmt"
 	"io"
+	"os"
 	"sort"
 	"strings"
 	"sync"
+	"syscall"
 	"testing/iotest"
 	"time"
 
@@ -34,7 +36,11 @@ var c16Ops = []string{"add x 300", "add x 1100", "add y 600", "add y 2100", "rem
 	"addfail x",
 	// a before.message_stored extension sends the message to a mailbox whose name is written with
 	// an upper-case letter (the stores keep names as given): its events carry that very name
-	"add-redirect Zed 300", "remove Zed oldest", "purge Zed"}
+	"add-redirect Zed 300", "remove Zed oldest", "purge Zed",
+	// environment fault: the process has run out of file descriptors while mailbox x is purged
+	// (every open fails with EMFILE; stat, unlink and rename still work).  Whatever the store makes
+	// of it, messages that leave are announced and messages that are announced as gone are gone.
+	"purge-emfile x"}
 
 type c16Case struct {
 	Spec sys.StoreSpec `json:"spec"`
@@ -207,6 +213,14 @@ func c16Exec(c *fw.Ctx, spec sys.StoreSpec, seq []int, from int) (key string, ex
 				ms, _ := st.GetMessages(f[1])
 				nontrivial = nontrivial || len(ms) > 0
 				_ = st.PurgeMessages(f[1])
+			case "purge-emfile":
+				restore := exhaustFileDescriptors()
+				err := st.PurgeMessages(f[1])
+				restore()
+				c.Count("purges_under_emfile", 1)
+				if err != nil {
+					c.Count("purges_under_emfile_refused", 1)
+				}
 			case "delete-unknown":
 				_ = st.RemoveMessage(f[1], "no-such-id")
 			case "scan":
@@ -406,4 +420,37 @@ func c16Replay(c *fw.Ctx, raw json.RawMessage) {
 
 func init() {
 	fw.Register(&fw.Body{ID: "C16", Part: "count", Run: c16Run, ReplayCase: c16Replay})
+}
+
+// exhaustFileDescriptors makes every further open in this process fail with EMFILE until the
+// returned function is called: the soft limit is lowered to just above the descriptors in use
+// and the gaps below it are filled.
+func exhaustFileDescriptors() (restore func()) {
+	var old syscall.Rlimit
+	if err := syscall.Getrlimit(syscall.RLIMIT_NOFILE, &old); err != nil {
+		return func() {}
+	}
+	ents, _ := os.ReadDir("/proc/self/fd")
+	low := old
+	low.Cur = uint64(len(ents) + 8)
+	if low.Cur > old.Cur {
+		return func() {}
+	}
+	if err := syscall.Setrlimit(syscall.RLIMIT_NOFILE, &low); err != nil {
+		return func() {}
+	}
+	var fill []*os.File
+	for i := 0; i < 64; i++ {
+		f, err := os.Open("/dev/null")
+		if err != nil {
+			break
+		}
+		fill = append(fill, f)
+	}
+	return func() {
+		_ = syscall.Setrlimit(syscall.RLIMIT_NOFILE, &old)
+		for _, f := range fill {
+			_ = f.Close()
+		}
+	}
 }
